@@ -257,6 +257,16 @@ macro_rules! shared_methods {
                 "to_string" => self.to_string(),
                 "lowerhex" => format!("{:x}", self),
                 "binary" => format!("{:b}", self),
+                // the same entry points with formatter flags (width, fill, alignment, precision, alternate, zero padding)
+                "display_w" => format!("{:>40}", self),
+                "display_f" => format!("{:*^37}", self),
+                "display_p" => format!("{:.3}", self),
+                "display_0" => format!("{:012}", self),
+                "lowerhex_w" => format!("{:<44x}", self),
+                "lowerhex_alt" => format!("{:#x}", self),
+                "binary_w" => format!("{:>70b}", self),
+                "binary_alt" => format!("{:#b}", self),
+                "binary_p" => format!("{:.5b}", self),
                 _ => panic!("HARNESS: bad form"),
             }
         }
